@@ -31,7 +31,10 @@ for n in (1, 2, 3, 4, 5):
         for v in range(n):
             # operations on the root of heaps with >= 3 timers (two-level sift-down) need minutes in path mode: thorough tier only
             tv = tier if (n <= 2 or v != 0) else ('thorough',)
-            HARNESSES += [T(n, 1, v, pm, tiers=tv, timeout=3000), T(n, 2, v, pm, tiers=tv, timeout=3000)]
+            # ... and their complete exploration takes hours (19 240 paths for 3 timers, measured): registered for n = 3 (every arrangement) and the identity arrangement of n = 4 with a 30 min
+            # budget each - on the unchanged tree they usually end INCONCLUSIVE (reported as such); a violating path is met early in the depth-first order (this is what catches seeded C11_m1)
+            if v == 0 and n >= 3 and not (n == 3 or (n == 4 and pm == tuple(range(n)))): continue
+            HARNESSES += [T(n, 1, v, pm, tiers=tv, timeout=1800), T(n, 2, v, pm, tiers=tv, timeout=1800)]
 # crossing the segment boundary (5 -> 6 timers grows, 6 -> 5 shrinks): identity deadline order, in the quick tier
 HARNESSES += [T(5, 0), T(6, 1, 5)] + [T(6, 1, 0, tiers=('thorough',), timeout=3000)]
 PR2 = dict(PR); PR2.update({'SZ_timer_config': 'sizeof(struct dispatch_timer_config_s)', 'OFF_dtc_clock': 'offsetof(struct dispatch_timer_config_s, dtc_clock)', 'OFF_dt_pending_config': 'offsetof(struct dispatch_timer_source_refs_s, dt_pending_config)',
